@@ -412,7 +412,13 @@ class ThreadSafeKeyedRefPool(Generic[T]):
 _thread_level_lock_ref = ThreadSafeKeyedRefPool(Lock(), {}, lambda _key: ShareableThreadLock())
 _process_level_lock_ref = ThreadSafeKeyedRefPool(Lock(), {}, ShareableProcessLock)
 _fd_ref = ThreadSafeKeyedRefPool(
-    Lock(), {}, lambda normalized_path: os.open(normalized_path, os.O_RDWR), lambda fd: os.close(fd)
+    Lock(),
+    {},
+    # NOTE: The lock file is created here if needed, through the one pooled fd. Callers must not
+    # create it themselves with open/close or Path.touch: closing ANY other fd of the file
+    # would release the locks this process holds on it.
+    lambda normalized_path: os.open(normalized_path, os.O_RDWR | os.O_CREAT, 0o666),
+    lambda fd: os.close(fd),
 )
 
 
@@ -450,9 +456,8 @@ def path_lock(path: str, shared: bool = False, blocking: bool = True, reentrant:
     Parameters
     ----------
     path : str
-        The path to lock. This path will be open in read-only mode if shared is
-        True, write mode otherwise. Must be the path of an existing file (not a
-        directory).
+        The path to lock. Must be the path of a file (not a directory). The file
+        is created if it does not exist.
     shared : bool
         Whether the lock should be shared. If not shared, the lock is
         exclusive. One can have either a single exclusive lock or any number of
